@@ -132,11 +132,13 @@ def canon_key(term):
 
 
 # ---- colour refinement --------------------------------------------------
-def _occurrences(term):
+def _occurrences(term, en=None):
     """yield (atom descriptor, inv, position class, index, group-mates,
     other-group) for every index slot"""
     occ = []
     for a, inv in term[1]:
+        if en is not None and is_frac_factor(a, en):
+            continue
         atoms = [a] if a[0] != "P" else [t for _, ts in a[1] for t in ts]
         tag = "" if a[0] != "P" else "P"
         for t in atoms:
@@ -159,12 +161,12 @@ def _occurrences(term):
     return occ
 
 
-def refine(term, tg, rounds=4):
+def refine(term, tg, rounds=4, en=None):
     idx = set(term_indices(term))
     colour = {}
     for x in idx:
         colour[x] = ("t", x.key) if x in tg else ("c", x.sort)
-    occ = _occurrences(term)
+    occ = _occurrences(term, en)
     for _ in range(rounds):
         new = {}
         for x in idx:
@@ -182,12 +184,29 @@ def refine(term, tg, rounds=4):
     return colour
 
 
-def canonical_relabel(term, tg, cap=3000):
+def is_eps_atom(a, en):
+    return (a[0] == "T" and a[1] == "KNonSym" and a[2] == en and
+            len(a[4]) == 1 and not a[5] and a[3] == 0)
+
+
+def is_frac_factor(a, en):
+    if is_eps_atom(a, en):
+        return True
+    return a[0] == "P" and all(is_eps_atom(t, en) for _, ts in a[1]
+                               for t in ts)
+
+
+def remainder_of(term, en):
+    return (term[0], [(a, inv) for a, inv in term[1]
+                      if not is_frac_factor(a, en)])
+
+
+def canonical_relabel(term, tg, cap=3000, en=None, collect=False):
     """returns dict contracted idx -> pool idx giving the minimal canonical
     key among the candidates explored"""
     tgs = set(tg)
     contracted = term_contracted(term, tgs)
-    colour = refine(term, tgs)
+    colour = refine(term, tgs, en=en)
     by_sort = {}
     for x in contracted:
         by_sort.setdefault(x.sort, []).append(x)
@@ -221,19 +240,29 @@ def canonical_relabel(term, tg, cap=3000):
         pool = pool_names(sort, tgs, n)
         per_sort.append((pool, list(orders_for(glist, full))))
     best_sign, other = 1, None
+    allbest = []
     for combo in itertools.product(*(o for _, o in per_sort)):
         m = {}
         for (pool, _), order in zip(per_sort, combo):
             flat = [x for g in order for x in g]
             for x, p in zip(flat, pool):
                 m[x] = p
-        key, sg = canon_key_sign(rename_term(term, m))
+        renamed = rename_term(term, m)
+        if en is not None:
+            renamed = remainder_of(renamed, en)
+        key, sg = canon_key_sign(renamed)
         if best is None or key < best:
             best, best_map, best_sign, other = key, m, sg, None
-        elif key == best and sg != best_sign and other is None:
-            other = m     # same canonical monomial with the opposite sign
+            allbest = [m]
+        elif key == best:
+            if len(allbest) < 64:
+                allbest.append(m)
+            if sg != best_sign and other is None:
+                other = m  # same canonical monomial with the opposite sign
     if best_map is None:
         best_map = {}
+    if collect:
+        return best_map, full, allbest
     return best_map, full, other
 
 
@@ -300,29 +329,58 @@ def find_delta_elims(term, tg):
     return elims, term
 
 
-def term_cert(term, tg, deltas=False):
+def term_cert(term, tg, deltas=False, en=None, mode=None):
+    """mode: 'identity' (no renaming), 'canon' (canonical relabelling of the
+    whole term, detects self-cancelling terms), 'aut' (fraction mode: average
+    over the relabellings that canonicalise the remainder).  Default: 'aut'
+    when en is given, else 'canon'."""
+    if mode is None:
+        mode = "aut" if en is not None else "canon"
     elims = []
     if deltas:
         elims, term = find_delta_elims(term, tg)
-    m, full, other = canonical_relabel(term, tg)
     universe = []
     for i in term_indices(term):
         if i not in universe:
             universe.append(i)
-    if other is not None:
-        ws = [(Fraction(1, 2), map_to_swaps(m, universe)),
-              (Fraction(1, 2), map_to_swaps(other, universe))]
+    full = True
+    if mode == "identity":
+        ws = []
+    elif mode == "aut":
+        m, full, allbest = canonical_relabel(term, tg, en=en, collect=True)
+        if len(allbest) > 16:
+            allbest = [m]
+        w = Fraction(1, len(allbest))
+        ws = [(w, map_to_swaps(mm, universe)) for mm in allbest]
     else:
-        ws = [(Fraction(1), map_to_swaps(m, universe))]
+        m, full, other = canonical_relabel(term, tg)
+        if other is not None:
+            ws = [(Fraction(1, 2), map_to_swaps(m, universe)),
+                  (Fraction(1, 2), map_to_swaps(other, universe))]
+        else:
+            ws = [(Fraction(1), map_to_swaps(m, universe))]
     if deltas:
         return (elims, ws), full
     return ws, full
 
 
-def expr_cert(e, tg, deltas=False):
+def eps_vars(exprs, en):
+    out = []
+    for e in exprs:
+        for t in e:
+            for a, inv in t[1]:
+                atoms = [a] if a[0] == "T" else \
+                    [x for _, ts in a[1] for x in ts] if a[0] == "P" else []
+                for x in atoms:
+                    if is_eps_atom(x, en) and x[4][0] not in out:
+                        out.append(x[4][0])
+    return out
+
+
+def expr_cert(e, tg, deltas=False, en=None, mode=None):
     certs, allfull = [], True
     for t in e:
-        c, full = term_cert(t, tg, deltas)
+        c, full = term_cert(t, tg, deltas, en, mode)
         certs.append(c)
         allfull = allfull and full
     return certs, allfull
